@@ -277,6 +277,12 @@ def fn_shape(fn, F):
     lines += sorted(conds)
     txt = '\n'.join(lines)
     txt = re.sub(r'\bSM[29]_', 'SMx_', txt)
+    # fingerprints of duplicated code are compared without memory versions: a sibling may initialise or copy its result
+    # array differently (the versions are part of the per-function templates, not of the cross-check)
+    prev = None
+    while prev != txt:
+        prev = txt
+        txt = re.sub(r'#\{[^{}]*\}', '', txt)
     return txt
 
 
